@@ -193,6 +193,23 @@ def execute(sc):
                 if np.abs(y.mean(0)).max() > tol or np.abs(y.var(0) - 1).max() > 10 * tol:
                     res.violate("normalise.own-stats", "without stored statistics the input's own statistics are not used")
                     return res
+            # partly stored statistics: what is given is used, what is missing is the input's own
+            #   y[..., i, ...] = (x[..., i, ...] - mean[i]) / max(std[i], eps)
+            if pt.shape[0] >= 2 and (pt.std(0) > 1e-3).all():
+                g = random.Random(sc["salt"] + 7)
+                given_mean = np.array([g.randrange(-8, 9) * 0.5 for _ in range(sc["F"])])
+                given_std = np.array([g.choice([0.5, 1.0, 2.0, 4.0]) for _ in range(sc["F"])])
+                tol = 1e-6 if sc["dtype"] == "float64" else 5e-3
+                for which in ("mean", "std"):
+                    kw = {which: torch.tensor(given_mean if which == "mean" else given_std, dtype=torch.float64)}
+                    y = pooled([MeanVarianceNormalization(dim, **kw)(t)], dim)
+                    m = given_mean if which == "mean" else pt.mean(0)
+                    sd = given_std if which == "std" else pt.std(0)
+                    want = (pt - m) / sd
+                    if not np.allclose(y, want, rtol=tol, atol=tol * (1 + np.abs(want).max())):
+                        res.violate("normalise.partial-stats", f"with only {which} given, the output is not (x - mean) / std with the input's own {'std' if which == 'mean' else 'mean'}", which=which)
+                        return res
+                res.bump("probe.partial_statistics")
             res.states.add(str((sc["D"], dim % sc["D"], len(chunks), sc["bessel"], sc["dtype"])))
             res.nontrivial = len(chunks) >= 2
             return res
@@ -319,7 +336,7 @@ def sample_repr(sc):
     return {k: v for k, v in sc.items() if k not in ("tape", "salt", "listing_seed")}
 
 
-GROUP_KEYS = ("oracle", "dtype", "bessel", "grouped")
+GROUP_KEYS = ("oracle", "dtype", "bessel", "grouped", "which")
 BUDGET = {"quick": 100000, "thorough": 150000}
 WALL_CAP = {"quick": 300, "thorough": 3000}
 RULE = (
